@@ -451,7 +451,9 @@ class Integer(Domain):
                 random_state = np.random
             log_items = random_state.uniform(logmin, logmax, size=size)
             items = np.exp(log_items)
-            items = np.round(items).astype(int)
+            # ``exp(log(x))`` differs from ``x`` by round-off, which exceeds 0.5 for
+            # very large bounds
+            items = np.clip(np.round(items), domain.lower, domain.upper).astype(int)
             return _sanitize_sample_result(items, domain)
 
     default_sampler_cls = _Uniform
